@@ -193,7 +193,7 @@ def run(prog):
                     errs.append("a clause of %d literals must put exactly two literals on watch lists; path does %s and ends with `%s`"
                                 % (n, [e[0] for e in eff], how))
         if not res:
-            errs.append("no path found through the clause loop body")
+            errs.append("?no path found through the clause loop body")
         out.append(inst("EC", key, VIOLATION if errs else OK, fn, None,
                         errs[0] if errs else "%d path(s): %s" % (len(res), {0: "conflict (None)", 1: "queued as unit"}.get(n, "two watches"))))
     return out
